@@ -69,6 +69,11 @@ def observe(Q, d, h, ph):
             return q
         if h["pos"] == "subquery":
             return Q.from_(q).select("a")
+        if h["pos"] == "cte":
+            # a value of the OUTER statement follows the CTE's row-limiting values in the parameter list (text order)
+            return Q.with_(q, "cq").from_(P.AliasedQuery("cq")).select("a").where(P.Field("a") == OUTER_MARK)
+        if h["pos"] == "in-subquery":
+            return Q.from_(t2).select(t2.a).where(t2.b == OUTER_MARK - 1).where(t2.a.isin(q)).where(t2.c == OUTER_MARK)
         so = q.union(Q.from_(t2).select(t2.a))
         if h["pos"] == "setop":
             if h["ordered"]:
@@ -79,6 +84,12 @@ def observe(Q, d, h, ph):
         return so
 
     full, params = render(mk(True))
+    if h["pos"] in ("cte", "in-subquery") and params:
+        # strip the outer statement's own values where the text puts them; anything else is left for the judge to reject
+        if h["pos"] == "in-subquery" and params[0] == OUTER_MARK - 1:
+            params = params[1:]
+        if params and params[-1] == OUTER_MARK:
+            params = params[:-1]
     base, _ = render(mk(False))
     fp, bp = payload(full), payload(base)
     if h["pos"] in ("top", "setop"):
@@ -94,6 +105,9 @@ def observe(Q, d, h, ph):
             raise core.MachineryError(f"cannot align embedded statement: {bp} / {fp}")
         tail = fp[k:len(fp) - len(rest)] if rest else fp[k:]
     return tail, params
+
+
+OUTER_MARK = 7771
 
 
 def sqlite_rows(Q, h, ph):
